@@ -221,6 +221,85 @@ def search_validate():
     return None
 
 
+FRONTEND_SRC = '''
+class Base:
+    @staticmethod
+    def sm(a, b=0):
+        return (a, b)
+    @staticmethod
+    def kw(a, *, k):
+        return (a, k)
+    @classmethod
+    def cm(cls, a, b=0):
+        return (a, b)
+    def m(self, a, b=0):
+        return (a, b)
+class Sub(Base):
+    pass
+def helper(a):
+    return a
+def other(a, b):
+    return (a, b)
+def outer():
+    def helper(a, b=0, *, c):
+        return (a, b, c)
+    def other(a, /):
+        return a
+    def uniq(a, *rest, k=0):
+        return (a, rest, k)
+    return [CALLS]
+def use(x: Sub, y: Base) -> None:
+    [UCALLS]
+'''
+NESTED_CALLS = ["helper(1, 2, c=3)", "helper(1)", "helper(1, c=2)", "other(1)", "other(a=1, b=2)", "other(1, 2)", "uniq(1, 2, 3, k=4)", "uniq()", "uniq(1, z=2)"]
+METHOD_CALLS = [f"{recv}.{call}" for recv in ("x", "y", "Sub", "Base") for call in ("sm(1, 2)", "sm()", "sm(1)", "kw(1, k=2)", "kw(1, 2)", "cm(1)", "cm()", "cm(1, 2, 3)")] + \
+               [f"{recv}.{call}" for recv in ("x", "y") for call in ("m(1)", "m()", "m(1, 2)", "m(1, 2, 3)")]
+
+
+def search_frontends():
+    """the ways a known Python function reaches the binder: (inherited) static / class / instance methods through an instance or the class,
+    nested functions whose names shadow module-level functions"""
+    from replay.checkcode import check_code
+    lines = FRONTEND_SRC.strip("\n").split("\n")
+    out, where = [], {}
+    for l in lines:
+        if "[CALLS]" in l:
+            out.append("    res = []")
+            for c in NESTED_CALLS:
+                out.append(f"    {c}")
+                where[len(out)] = ("nested", c)
+            out.append("    return res")
+        elif "[UCALLS]" in l:
+            for c in METHOD_CALLS:
+                out.append(f"    {c}")
+                where[len(out)] = ("method", c)
+        else:
+            out.append(l)
+    res = check_code("\n".join(out) + "\n")
+    bad = {}
+    for fl in res:
+        if fl["code"].name in ("incompatible_call", "incompatible_argument"):
+            bad.setdefault(fl["lineno"], []).append(fl["description"].split("\n")[0])
+    # the reference: the same calls executed
+    env = {}
+    exec(FRONTEND_SRC.replace("    return [CALLS]", "    return dict(helper=helper, other=other, uniq=uniq)").replace("    [UCALLS]", "    pass"), env)
+    nested = env["outer"]()
+    menv = {"x": env["Sub"](), "y": env["Base"](), "Sub": env["Sub"], "Base": env["Base"]}
+    from replay.util import count
+    for ln, (kind, c) in sorted(where.items()):
+        try:
+            eval(c, dict(nested) if kind == "nested" else menv)
+            binds = True
+        except TypeError:
+            binds = False
+        count(1, 1)
+        if binds == (ln in bad):
+            what = "inside outer(), where nested defs helper(a, b=0, *, c), other(a, /), uniq(a, *rest, k=0) shadow module-level helper(a), other(a, b)" if kind == "nested" \
+                else "with x: Sub, y: Base, class Sub(Base) inheriting sm(a, b=0), kw(a, *, k) [static], cm(cls, a, b=0) [class], m(self, a, b=0)"
+            return (f"{c} ({what}): CPython {'binds the arguments' if binds else 'raises TypeError while binding'}, pyanalyze {'reports ' + str(bad[ln]) if ln in bad else 'reports nothing'}")
+    return None
+
+
 def r_validate(rec):
     msg = search_validate()
     return (True, msg) if msg else (False, "Signature.validate agrees with CPython's parameter-order rules on all lists of <= 3 parameters")
@@ -228,7 +307,7 @@ def r_validate(rec):
 
 def r_c05(rec):
     thorough = bool(rec and rec.get("tier") == "thorough")
-    msg = search(thorough) or search_star() or search_dunder()
+    msg = search(thorough) or search_star() or search_dunder() or search_frontends()
     return (True, msg) if msg else (False, "argument binding agrees with CPython on the generated signatures and call shapes")
 
 
